@@ -159,7 +159,7 @@ theorem tr_good : ∀ (S : Src.Stmt) (env : Src.Env), EnvOK cx env → ∀ k b, 
       simp only [Bool.false_eq_true, ↓reduceIte, List.append_nil]
       exact trBranches_good bs env he k k b
   | .switch hdr cs, env, he, k, b => by
-    rw [tr_switch fuel env he hdr cs k b]; simp only [dfS]
+    rw [tr_switch fuel env hdr cs k b]; simp only [dfS]
     have hT := trCases_good cs (brkEnv env k) (plainEnv_brkEnv he k) k (tbl b).length (b.push (.halt (evInvalid "switch default"))).1
     have h1 : TrGood cx env (Src.trCases fuel [] (brkEnv env k) cs k (tbl b).length (b.push (.halt (evInvalid "switch default"))).1).1 b
         (dfSCases cs) := TrGood.before (Grow.push _ _) ⟨hT.1, hT.2⟩
@@ -170,19 +170,19 @@ theorem tr_good : ∀ (S : Src.Stmt) (env : Src.Env), EnvOK cx env → ∀ k b, 
     have h1 : TrGood cx env _ b (dfSStmts body) := TrGood.before (Grow.push _ _) ⟨hB.1, hB.2⟩
     exact h1.set_ge he (Nat.le_refl _) _
   | .while_ neg t body, env, he, k, b => by
-    rw [tr_while fuel env he]; simp only [dfS]
+    rw [tr_while fuel env]; simp only [dfS]
     have hB := trStmts_good body (loopEnv env (tbl b).length k) (plainEnv_loopEnv he _ _) (tbl b).length (b.push (.halt (evInvalid "loop head"))).1
     have h1 : TrGood cx env _ b (dfSStmts body) := TrGood.before (Grow.push _ _) ⟨hB.1, hB.2⟩
     exact h1.set_ge he (Nat.le_refl _) _
   | .for_ init t inc body, env, he, k, b => by
-    rw [tr_for fuel env he]; simp only [dfS]
+    rw [tr_for fuel env]; simp only [dfS]
     have hI := tr_good inc env he (tbl b).length (b.push (.halt (evInvalid "loop test"))).1
     have hB := trStmts_good body (loopEnv env (Src.tr fuel [] env inc (tbl b).length (b.push (.halt (evInvalid "loop test"))).1).2 k)
       (plainEnv_loopEnv he _ _) (Src.tr fuel [] env inc (tbl b).length (b.push (.halt (evInvalid "loop test"))).1).2
       (Src.tr fuel [] env inc (tbl b).length (b.push (.halt (evInvalid "loop test"))).1).1
     have h1 : TrGood cx env _ b (dfS inc ++ dfSStmts body) :=
       TrGood.before (Grow.push _ _) (TrGood.seq hI ⟨hB.1, hB.2⟩ (fun n hn => by simpa using hn))
-    have h2 := h1.set_ge he (Nat.le_refl _) (.test t (Src.trStmts fuel [] (loopEnv env (Src.tr fuel [] env inc (tbl b).length
+    have h2 := h1.set_ge he (Nat.le_refl _) (.test (Src.substEv env.subst t) (Src.trStmts fuel [] (loopEnv env (Src.tr fuel [] env inc (tbl b).length
       (b.push (.halt (evInvalid "loop test"))).1).2 k) body (Src.tr fuel [] env inc (tbl b).length (b.push (.halt (evInvalid "loop test"))).1).2
       (Src.tr fuel [] env inc (tbl b).length (b.push (.halt (evInvalid "loop test"))).1).1).2 k)
     exact TrGood.seq h2 (tr_good init env he _ _) (fun n hn => by
@@ -223,7 +223,7 @@ theorem trCases_good : ∀ (S : Src.Cases) (env : Src.Env), EnvOK cx env → ∀
     exact TrGood.seq (trCases_good r env he k nt b) (trStmts_good body env he _ _) (fun n hn => by
       simp only [List.mem_append] at hn; exact hn.symm)
   | .cons false t body r, env, he, k, nt, b => by
-    rw [trCases_case fuel env he.1 t body r k nt b rfl rfl]; simp only [dfSCases]
+    rw [trCases_case fuel env t body r k nt b rfl rfl]; simp only [dfSCases]
     exact (TrGood.seq (trCases_good r env he k nt b) (trStmts_good body env he _ _) (fun n hn => by
       simp only [List.mem_append] at hn; exact hn.symm) (d := dfSStmts body ++ dfSCases r)).after (Grow.push _ _)
 end
